@@ -98,6 +98,21 @@ class Model:
             out.append({'type': rt, 'source': g('Source'), 'target': g('Target'), 'evt': g('Evt'),
                         'tag': tag.split('::')[-1] if tag else None, 'guard': g('Guard'), 'action': g('Action')})
         return out
+    def declares_option(self, fe, opt, through_configuration=True):
+        """front-end option typedef (no_exception_thrown, no_message_queue, ...) declared in the front-end, one of its bases, or -
+        back / back11 - in an element of its `configuration` sequence"""
+        todo = [strip_cvref(fe)]; k = 0
+        while todo and k < 16:
+            k += 1
+            rec = self.F.rec_by_type(todo.pop(0))
+            if rec is None: continue
+            if opt in rec['tds']: return True
+            todo.extend(self.F.strs[b['t']] for b in rec['bases'])
+        if through_configuration:
+            for c in self.seq(fe, 'configuration') or []:
+                rec = self.F.rec_by_type(strip_cvref(c))
+                if rec and opt in rec['tds']: return True
+        return False
     def initial_states(self, fe): return self.seq(fe, 'initial_state')
     def deferred(self, st):
         l = self.seq(st, 'deferred_events')
